@@ -1,5 +1,5 @@
 (* Proofs about Model/Prices.v. *)
-From LedgerV Require Import Base.Prelude Model.Prices.
+From LedgerV Require Import Base.Prelude Gen.PriceMemo Model.Prices.
 From Coq Require Import Permutation.
 Local Open Scope Z_scope.
 
@@ -788,8 +788,15 @@ Proof.
       * apply Hok.
 Qed.
 
+(* the source fact the transparency of the memo rests on (regenerated from commodity.cc) *)
+Lemma every_memo_cleared :
+  add_price_clears_every_memo = true /\ remove_price_clears_every_memo = true.
+Proof. split; reflexivity. Qed.
+
 Lemma st_add_ok s e : memo_ok (st_add s e).
-Proof. intros owner D t r. cbn. discriminate. Qed.
+Proof.
+  intros owner D t r. unfold st_add. rewrite (proj1 every_memo_cleared). cbn. discriminate.
+Qed.
 
 (* memoised lookups answer what plain lookups answer, however lookups and recordings of
    prices are interleaved *)
